@@ -361,6 +361,9 @@ func main() {
 					s.DirectViolation(c.ID, "expiry-create: "+v[0], v)
 				}
 				s.Count("fam:expiry-create-rounds-inmem")
+				if v := versionBurstRounds(); len(v) > 0 {
+					s.DirectViolation(c.ID, "version burst: "+v[0], v)
+				}
 			}
 			if c.Backend == "redis" {
 				if v := slowPollCase(); len(v) > 0 {
